@@ -214,7 +214,9 @@ class BuildSystem():
 
             molecule = molecules[mol_idx]
 
-            if all(["position" in molecule.nodes[node] for node in molecule.nodes]):
+            # ignored molecules are neither built nor part of the non-bonded engine
+            if molecule.mol_name in self.ignore or\
+               all(["position" in molecule.nodes[node] for node in molecule.nodes]):
                 mol_idx += 1
                 pbar.update(1)
                 continue
@@ -244,7 +246,11 @@ class BuildSystem():
         self.molecules = list(_filter_by_molname(self.topology.molecules, self.ignore))
         # generate the nonbonded matrix wrapping all information about molecular
         # interactions
-        self.nonbond_matrix = NonBondEngine.from_topology(self.molecules, self.topology, self.box)
+        # the engine is indexed by the position of a molecule in the topology
+        mol_idxs = [idx for idx, molecule in enumerate(self.topology.molecules)
+                    if molecule.mol_name not in self.ignore]
+        self.nonbond_matrix = NonBondEngine.from_topology(self.molecules, self.topology, self.box,
+                                                          mol_idxs=mol_idxs)
         # apply sampling of persistence length
         sample_end_to_end_distances(self.topology, self.nonbond_matrix)
         # set any other distance and/or position restraints
